@@ -82,7 +82,7 @@ def check(run, driver):
     nlin = 120 if thorough else 40
     for it in range(nlin):
         n = int(rng.integers(1, 9)); T = int(rng.integers(2, 40)); p = float(rng.choice([0.0, 1.0, rng.random()]))
-        rho = float(rng.uniform(0.05, 0.95)); eps = float(10 ** rng.uniform(-3, 1)); seed = int(rng.integers(0, 10**6))
+        rho = float(rng.uniform(0.05, 0.95)); eps = float(10 ** rng.uniform(-3, 1)); seed = int(rng.integers(0, 10**6)) if it % 7 else 0      # (seed 0 is a seed like any other)
         kind = it % 4
         G = None
         if kind == 1:
@@ -151,7 +151,7 @@ def check(run, driver):
             run.prop_fail("series is not linear in epsilon", case, {"clause": "linear_in_eps", "generator": "linear"})
     # ---- the same graph object REWIRED between two calls (node and edge counts unchanged) must behave like a fresh graph
     for it in range(30 if thorough else 10):
-        n = int(rng.integers(3, 8)); seed = int(rng.integers(0, 10**6))
+        n = int(rng.integers(3, 8)); seed = int(rng.integers(0, 10**6)) if it % 7 else 0      # (seed 0 is a seed like any other)
         G = nx.gnp_random_graph(n, 0.5, seed=seed, directed=True)
         if G.number_of_edges() == 0:
             continue
@@ -176,7 +176,7 @@ def check(run, driver):
     pooled = []
     for it in range(npoi):
         n = int(rng.integers(1, 8)); T = int(rng.integers(2, 30)); p = float(rng.choice([0.0, 1.0, rng.random()]))
-        lam = float(rng.choice([0.0, 0.03, 0.05, 0.09, 2.0, rng.uniform(0, 5)])); c = float(rng.choice([0.0, 0.3, rng.uniform(0, 1.5)])); seed = int(rng.integers(0, 10**6))
+        lam = float(rng.choice([0.0, 0.03, 0.05, 0.09, 2.0, rng.uniform(0, 5)])); c = float(rng.choice([0.0, 0.3, rng.uniform(0, 1.5)])); seed = int(rng.integers(0, 10**6)) if it % 7 else 0      # (seed 0 is a seed like any other)
         G = None
         if it % 3 == 1:
             G = nx.gnp_random_graph(n, 0.4, seed=seed, directed=True) if it % 2 else _odd_user_graph(n, rng)
